@@ -4,7 +4,7 @@
    model theorems (proved in EFModel.C19_Return1D_proofs / EFModel.C19_Commit). *)
 From Coquelicot Require Import Coquelicot.
 From Coq Require Import Reals List Lra Bool.
-From EFModel Require Import C19_Return1D C19_Return1D_proofs C19_Commit C19_Lift C19_PlaneStress C19_Radial C19_Tangent.
+From EFModel Require Import C19_Return1D C19_Return1D_proofs C19_Commit C19_Lift C19_PlaneStress C19_Radial C19_Tangent C19_Units.
 From EFP Require Import Gen_C19.
 Import List ListNotations.
 Open Scope R_scope.
@@ -278,6 +278,24 @@ Proof.
   intros. split; [apply tangent_is_derivative_1d | apply radial_1d_tangent_value]; assumption.
 Qed.
 Print Assumptions C19_tangent_is_derivative_1d.
+
+(* unit invariance (homogeneity of degree one): the same material in units where stresses are s
+   times larger (lam -> s lam, y -> sqrt(s) y, H -> s H, sigma_y -> s sigma_y) goes through the
+   same iterations: theta/s, residual x s, same dGamma, eigen-stress x sqrt(s), same break test *)
+Theorem C19_radial_unit_invariance : forall lam H sy tol dt p s ps,
+    uniform lam ps -> 0 < lam -> 0 <= H -> 0 < phi Rops ps 0 -> 0 < sy + H * p -> 0 < Ac H sy ps p -> 0 < s ->
+    forall n,
+      let th := Nat.iter n (newton H sy dt ps p) 0 in
+      let th' := Nat.iter n (newton (s * H) (s * sy) dt (scale_ps s ps) p) 0 in
+      th' = th / s /\
+      resid Rops (fun x => s * H * x) None dt (s * sy) (mkPoint (scale_ps s ps) p) th'
+        = s * resid Rops (fun x => H * x) None dt sy (mkPoint ps p) th /\
+      dGam Rops (mkPoint (scale_ps s ps) p) th' = dGam Rops (mkPoint ps p) th /\
+      sig_eig Rops (scale_ps s ps) th' = map (Rmult (sqrt s)) (sig_eig Rops ps th) /\
+      small_v Rops (s * sy) tol true (resid Rops (fun x => s * H * x) None dt (s * sy) (mkPoint (scale_ps s ps) p) th')
+        = small_v Rops sy tol true (resid Rops (fun x => H * x) None dt sy (mkPoint ps p) th).
+Proof. intros; apply (radial_unit_invariance lam); assumption. Qed.
+Print Assumptions C19_radial_unit_invariance.
 
 Theorem C19_commit_only_on_save :
   forall (Strain Stress Tangent State Group : Type) (zeros : State)
